@@ -1,6 +1,7 @@
 package an
 
 import (
+	"go/types"
 	"strings"
 
 	"golang.org/x/tools/go/ssa"
@@ -58,8 +59,25 @@ func PrivateHelper(g *ssa.Function) bool {
 	if o := g.Origin(); o != nil {
 		g = o
 	}
-	obj := g.Object()
-	return obj != nil && !obj.Exported()
+	obj, _ := g.Object().(*types.Func)
+	if obj == nil {
+		return false
+	}
+	if !obj.Exported() {
+		return true
+	}
+	// a capitalised method on an unexported type that a later edit introduced (a phase of
+	// some function moved into `state.Collect(…)`): as private as its receiver
+	if sig, ok := obj.Type().(*types.Signature); ok && sig.Recv() != nil && NewDeclHook(obj) {
+		t := sig.Recv().Type()
+		if p, isPtr := t.(*types.Pointer); isPtr {
+			t = p.Elem()
+		}
+		if n, isNamed := t.(*types.Named); isNamed && !n.Obj().Exported() {
+			return true
+		}
+	}
+	return false
 }
 
 // Region calls f for every instruction of fn and of the private helpers fn
